@@ -42,35 +42,131 @@ import (
 type BatchCase struct {
 	Job        execgen.BatchJob `json:"job"`
 	GoMaxProcs int              `json:"gomaxprocs"`
+	// SkipFX8: race reports whose two accesses are both in sema/entitlementset.go
+	// (lazy Minimize of a cached EntitlementSet, known finding FX8) are counted, not reported.
+	SkipFX8 bool `json:"skip_fx8,omitempty"`
 }
 
 func runBatchChild(bc BatchCase) (*execgen.BatchResult, string, error) {
+	br, out, _, err := runBatchChildN(bc)
+	return br, out, err
+}
+
+// runBatchChildN also returns the number of race reports attributed to known finding FX8.
+func runBatchChildN(bc BatchCase) (*execgen.BatchResult, string, int, error) {
 	// the reference: every program ALONE with a fresh program cache, in its own fresh process
 	alone := bc.Job
 	alone.AloneOnly, alone.Alone = true, nil
 	ref := execgen.RunChild(execgen.Job{Mode: execgen.ModeBatch, Batch: &alone}, execgen.ChildOpts{Timeout: 15 * time.Minute})
 	if ref.Err != nil || !ref.Complete || len(ref.Replies) != 1 || ref.Replies[0].Batch == nil {
-		return nil, ref.Output, fmt.Errorf("reference child (programs alone, sequential) failed: err=%v complete=%v timedout=%v output=%.3000s", ref.Err, ref.Complete, ref.TimedOut, ref.Output)
+		return nil, ref.Output, 0, fmt.Errorf("reference child (programs alone, sequential) failed: err=%v complete=%v timedout=%v output=%.3000s", ref.Err, ref.Complete, ref.TimedOut, ref.Output)
 	}
 	if f := ref.Replies[0].Batch.SetupFail; f != "" {
-		return ref.Replies[0].Batch, ref.Output, nil
+		return ref.Replies[0].Batch, ref.Output, 0, nil
 	}
 	bc.Job.Alone = ref.Replies[0].Batch.Alone
-	res := execgen.RunChild(execgen.Job{Mode: execgen.ModeBatch, Batch: &bc.Job}, execgen.ChildOpts{GoMaxProcs: bc.GoMaxProcs, Timeout: 15 * time.Minute})
-	if strings.Contains(res.Output, "WARNING: DATA RACE") {
-		return nil, res.Output, nil
+	res := execgen.RunChild(execgen.Job{Mode: execgen.ModeBatch, Batch: &bc.Job}, execgen.ChildOpts{GoMaxProcs: bc.GoMaxProcs, Timeout: 15 * time.Minute, MaxOutput: 8 << 20})
+	other, nfx8 := raceReports(res.Output, bc.SkipFX8)
+	if len(other) > 0 {
+		return nil, strings.Join(other, "\n==================\n"), nfx8, nil
 	}
 	if res.Err != nil || !res.Complete || len(res.Replies) != 1 || res.Replies[0].Batch == nil {
-		return nil, res.Output, fmt.Errorf("child failed: err=%v complete=%v timedout=%v output=%.3000s", res.Err, res.Complete, res.TimedOut, res.Output)
+		return nil, res.Output, nfx8, fmt.Errorf("child failed: err=%v complete=%v timedout=%v output=%.3000s", res.Err, res.Complete, res.TimedOut, res.Output)
 	}
-	return res.Replies[0].Batch, res.Output, nil
+	return res.Replies[0].Batch, res.Output, nfx8, nil
 }
 
 func raceBuild() bool { return raceEnabled }
 
+// raceReports splits a child's output into its race reports; with skipFX8 the reports of known
+// finding FX8 (top frame of BOTH accesses in sema/entitlementset.go) are only counted.
+func raceReports(out string, skipFX8 bool) (other []string, fx8 int) {
+	parts := strings.Split(out, "WARNING: DATA RACE")
+	for _, rep := range parts[1:] {
+		if end := strings.Index(rep, "\n=================="); end > 0 {
+			rep = rep[:end]
+		}
+		rep = "WARNING: DATA RACE" + rep
+		if skipFX8 && isFX8Report(rep) {
+			fx8++
+			continue
+		}
+		other = append(other, rep)
+	}
+	return
+}
+
+func isFX8Report(rep string) bool {
+	lines := strings.Split(rep, "\n")
+	accesses, inFile := 0, 0
+	for i, l := range lines {
+		if strings.HasPrefix(l, "Read at ") || strings.HasPrefix(l, "Write at ") || strings.HasPrefix(l, "Previous read at ") || strings.HasPrefix(l, "Previous write at ") ||
+			strings.HasPrefix(l, "Atomic") || strings.HasPrefix(l, "Previous atomic") {
+			accesses++
+			// top frame: function line + file line
+			if i+2 < len(lines) && strings.Contains(lines[i+1], "sema.(*EntitlementSet).") && strings.Contains(lines[i+2], "/sema/entitlementset.go:") {
+				inFile++
+			}
+		}
+	}
+	return accesses == 2 && inFile == 2
+}
+
+// raceSummary renders the first race report of a child's output: of every section
+// (the two accesses, the goroutine creations) the header and the top frames.
+func raceSummary(out string) string {
+	idx := strings.Index(out, "WARNING: DATA RACE")
+	if idx < 0 {
+		return ""
+	}
+	rep := out[idx:]
+	if end := strings.Index(rep, "\n=================="); end > 0 {
+		rep = rep[:end]
+	}
+	var b strings.Builder
+	inSection := 0
+	for _, l := range strings.Split(rep, "\n") {
+		if l != "" && l[0] != ' ' && l[0] != '\t' {
+			inSection = 0
+		}
+		if inSection < 25 {
+			b.WriteString(l + "\n")
+		} else if inSection == 25 {
+			b.WriteString("      ...\n")
+		}
+		inSection++
+	}
+	return b.String()
+}
+
 // FX7: on the VM every execution that finds program.compiledProgram == nil on a program served by the
 // host's program cache compiles it and stores the result into the SHARED *runtime.Program
 // (vmEnvironment.loadProgram), and compilation (desugar) writes into the shared Elaboration.
+// FX8: sema.EntitlementSet.Access() minimises the set lazily (Minimize writes s.minimized and may delete
+// from s.Disjunctions) although the set is cached in the type (supportedEntitlements) and so shared by
+// every program importing the type through the host's program cache.
+func fx8StillFails() bool {
+	if !raceBuild() {
+		return true
+	}
+	b := execgen.GenBatchOf(evid.Rand(8), 32, "ent-attachment-access")
+	for k := 0; k < 4; k++ {
+		job := execgen.BatchJob{Batch: b, Engine: int(host.Interp), Goroutines: 8, Seed: int64(k), Repeat: 4, AloneOnly: false}
+		alone := job
+		alone.AloneOnly = true
+		ref := execgen.RunChild(execgen.Job{Mode: execgen.ModeBatch, Batch: &alone}, execgen.ChildOpts{Timeout: 10 * time.Minute})
+		if len(ref.Replies) != 1 || ref.Replies[0].Batch == nil {
+			return true
+		}
+		job.Alone = ref.Replies[0].Batch.Alone
+		res := execgen.RunChild(execgen.Job{Mode: execgen.ModeBatch, Batch: &job}, execgen.ChildOpts{GoMaxProcs: 16, Timeout: 10 * time.Minute, MaxOutput: 8 << 20})
+		if _, n := raceReports(res.Output, true); n > 0 {
+			return true
+		}
+	}
+	return false
+}
+
 func fx7StillFails() bool {
 	if !raceBuild() {
 		return true // cannot be observed without the race detector; keep reporting it
@@ -93,12 +189,7 @@ func TestC36(t *testing.T) {
 	report := func(bc BatchCase, br *execgen.BatchResult, out string, err error) {
 		if br == nil && err == nil {
 			// data race: echo the report; the driver classifies the marker
-			idx := strings.Index(out, "WARNING: DATA RACE")
-			end := idx + 6000
-			if end > len(out) {
-				end = len(out)
-			}
-			fmt.Println(out[idx:end])
+			fmt.Println(raceSummary(out))
 			rec.Violation(t, bc, "data race reported by the race detector in a concurrent batch (engine %s, %d goroutines, GOMAXPROCS %d)", host.Engine(bc.Job.Engine), bc.Job.Goroutines, bc.GoMaxProcs)
 		}
 		if err != nil {
@@ -151,6 +242,11 @@ func TestC36(t *testing.T) {
 		rec.ReportKnown("FX7", fx7StillFails())
 	}
 
+	fx8 := rec.Known("FX8")
+	if fx8 {
+		rec.ReportKnown("FX8", fx8StillFails())
+	}
+
 	rnd := evid.Rand(36)
 	nBatches := evid.N(20, 400)
 	type jobT struct {
@@ -177,11 +273,12 @@ func TestC36(t *testing.T) {
 	type outT struct {
 		br  *execgen.BatchResult
 		out string
+		fx8 int
 		err error
 	}
 	outs := make([]outT, len(jobs))
 	parallel(len(jobs), 2, func(k int) {
-		outs[k].br, outs[k].out, outs[k].err = runBatchChild(jobs[k].bc)
+		outs[k].br, outs[k].out, outs[k].fx8, outs[k].err = runBatchChildN(jobs[k].bc)
 	})
 	loads, hits := 0, 0
 	for k, j := range jobs {
@@ -201,6 +298,9 @@ func TestC36(t *testing.T) {
 		}
 		if j.bc.Job.Warm {
 			rec.Excluded("FX7")
+		}
+		for x := 0; x < outs[k].fx8; x++ {
+			rec.Excluded("FX8")
 		}
 		rec.Class(fmt.Sprintf("engine:%s", eng))
 		rec.Class(fmt.Sprintf("gomaxprocs:%d", j.bc.GoMaxProcs))
